@@ -1351,6 +1351,7 @@ func runC17SlowWriters(res *Result, r *Rng) {
 		errA := make(chan error, 1)
 		go func() { errA <- a.ToHTML(pw, ""); pw.Close() }()
 		var gotA, gotB bytes.Buffer
+		doneB := make(chan struct{})
 		buf := make([]byte, 512)
 		first := true
 		for {
@@ -1358,8 +1359,9 @@ func runC17SlowWriters(res *Result, r *Rng) {
 			gotA.Write(buf[:n])
 			if first && n > 0 {
 				first = false
-				// while document A is only partly consumed, document B is rendered
-				b.ToHTML(&gotB, "")
+				// while document A is only partly consumed, document B is rendered (in a goroutine of its
+				// own: an implementation may make B wait for A, and A's consumer must not wait for B)
+				go func() { b.ToHTML(&gotB, ""); close(doneB) }()
 			}
 			runtime.Gosched()
 			if err != nil {
@@ -1367,6 +1369,15 @@ func runC17SlowWriters(res *Result, r *Rng) {
 			}
 		}
 		<-errA
+		if first {
+			close(doneB)
+		}
+		select {
+		case <-doneB:
+		case <-time.After(30 * time.Second):
+			res.Violation(Finding{Stream: "slow writer", What: "a page whose rendering started while another page was being written to a slow consumer had not been rendered 30 s after the other one was complete", Op: map[string]interface{}{"goroutines_a": len(a.Goroutines), "goroutines_b": len(b.Goroutines)}})
+			return
+		}
 		res.Count("slow-writer-rounds")
 		if mask(gotA.Bytes()) != mask(refA.Bytes()) {
 			res.Violation(Finding{Stream: "slow writer", What: "a page written to a slow consumer while another page was rendered in between is not the page of its snapshot: " + diffAt(mask(gotA.Bytes()), mask(refA.Bytes())), Op: map[string]interface{}{"goroutines_a": len(a.Goroutines), "goroutines_b": len(b.Goroutines)}})
